@@ -19,6 +19,7 @@
 package c03
 
 import (
+	"bytes"
 	"encoding/hex"
 	"fmt"
 	"math/rand"
@@ -644,7 +645,9 @@ func corpusReProposal(o *drv.Out) {
 	defer net.Close()
 	c := execdrv.NewChain(o, net, rng, []int{16, 2})
 	P, V, R, S := c.NewNode("P", 0), c.NewNode("V", 1), c.NewNode("R", -1), c.NewNode("S", -1)
-	commitAll := func(p *execdrv.Proposal, pre string, label string) bool {
+	// also: earlier proposals of the same height (same transactions, same resulting state) whose
+	// operations are held back until the resulting state is known
+	commitAll := func(p *execdrv.Proposal, pre string, label string, also ...*execdrv.Proposal) bool {
 		h := P.Height()
 		c.Hold = true
 		okP := c.Validate(P, p)
@@ -653,7 +656,13 @@ func corpusReProposal(o *drv.Out) {
 			resP = c.Commit(P, p, false)
 		}
 		post := P.StateDigest()
-		o.Op(fmt.Sprintf("def %d %s %s %s %s", h, pre, p.ID, post, p.Obs), "def")
+		defined := map[string]bool{}
+		for _, q := range append(also, p) {
+			if !defined[q.ID] {
+				defined[q.ID] = true
+				o.Op(fmt.Sprintf("def %d %s %s %s %s", h, pre, q.ID, post, q.Obs), "def")
+			}
+		}
 		c.Release()
 		want := fmt.Sprintf("ok state=%s obs=%s", post, p.Obs)
 		fail := func(path, got string) {
@@ -699,6 +708,9 @@ func corpusReProposal(o *drv.Out) {
 	}{{"first proposal, VDF a (30 iterations)", a}, {"second proposal from the same cached proposal, VDF a again", a},
 		{"third proposal, VDF b (70 iterations)", b}, {"fourth proposal, no VDF", nil}}
 	var last *execdrv.Proposal
+	var earlier []*execdrv.Proposal
+	var stateRoot []byte
+	c.Hold = true
 	for i, r := range rounds {
 		var mp []node.MixTx
 		if i == 0 {
@@ -727,9 +739,17 @@ func corpusReProposal(o *drv.Out) {
 				replayInfo(o, c, h, p, "validate"))
 			return
 		}
+		if i > 0 && !bytes.Equal(stateRoot, blk.BlockHeader.StateRoot) {
+			o.Fail("C03:path-diverges:re-proposal", fmt.Sprintf("height %d, %s: state root %x, the first proposal from the same cached proposal had %x", h, r.label, blk.BlockHeader.StateRoot, stateRoot), replayInfo(o, c, h, p, "produce"))
+			return
+		}
+		stateRoot = blk.BlockHeader.StateRoot
+		if last != nil {
+			earlier = append(earlier, last)
+		}
 		last = p
 	}
-	if !commitAll(last, pre, "fourth proposal committed") {
+	if !commitAll(last, pre, "fourth proposal committed", earlier...) {
 		return
 	}
 	o.Nontrivial(o.CurCase())
